@@ -40,6 +40,9 @@ SPEC = dict(
          'fan2go as a NON-ROOT user: 96 calls (6 apis, Validate with 2 variants; direct/symlink) are performed in a child process '
          'of the harness running with uid = gid = 65534 on files owned by root / by that very user / by a third user / with a '
          'non-root group with and without g+w: only root-owned files pass, whatever the effective uid. '
+         'Configured exec strings with a space, `;`, `$`, `|`, `&` or a back-tick through the five wrapper apis: files named '
+         'exactly so (root-controlled or not) beside a hostile f1 where a shell would end up, and "f1 --zone 1"-style strings '
+         '(path plus inline argument) that name no file: the string names the file, anything else is refused, nothing runs. '
          'EVERY start of a script appends its id and stat -L of its own path to a marker file, so the observation is the list '
          'of starts inside one call with the attributes at each start. Non-trivial = at least one call on a path that leads to an '
          'existing file; distinct = distinct (operations, observations) terms.',
